@@ -3,7 +3,11 @@ package scen
 import (
 	"errors"
 	"fmt"
+	"io"
+	"net"
+	"os"
 	"sort"
+	"syscall"
 
 	erpc "github.com/henrylee2cn/erpc/v6"
 	"github.com/henrylee2cn/erpc/v6/plugin/auth"
@@ -187,6 +191,25 @@ func c15(p Params) func() {
 				return st
 			}},
 		)
+		// writes that fail with the errors a vanished connection produces (end of file, closed pipe, broken pipe, reset)
+		for _, we := range []struct {
+			n string
+			e error
+		}{
+			{"eof", io.EOF},
+			{"closedpipe", io.ErrClosedPipe},
+			{"epipe", &net.OpError{Op: "write", Net: "tcp", Err: os.NewSyscallError("write", syscall.EPIPE)}},
+			{"reset", &net.OpError{Op: "write", Net: "tcp", Err: os.NewSyscallError("write", syscall.ECONNRESET)}},
+		} {
+			we := we
+			ops = append(ops, probe{"push_write_fails_" + we.n, func() *erpc.Status {
+				x, _, l := world.Connect(cli, srv, nil)
+				l.A.FailWrites(we.e)
+				st := x.Push(hPush, "x")
+				x.Close()
+				return st
+			}})
+		}
 		for _, pr := range probes {
 			ops = append(ops, pr)
 		}
